@@ -521,6 +521,27 @@ pub fn families(tier: Tier, variant: &str) -> Vec<Family> {
             ctx.nontrivial();
         }));
     }
+    {
+        let mut inputs: Vec<Vec<u8>> = vec![];
+        for (_, d) in gen::corpus() {
+            if d.len() > 700_000 {
+                continue;
+            }
+            inputs.push(d.clone());
+            let n = if q { 6 } else { 40 };
+            for c in 1..n {
+                let cut = d.len() * c / n;
+                inputs.push(d[..cut].to_vec());
+                let mut m = d.clone();
+                m[cut] = b'"';
+                inputs.push(m);
+            }
+        }
+        v.push(Family::of_vec("plain/corpus-files(cuts)", inputs, |d, ctx| {
+            check_plain(ctx, d, false);
+            ctx.nontrivial();
+        }));
+    }
     v.push(seq("plain/s17", gen::S17, if q { 4 } else { 5 }, b"", b"", false, false));
     v.push(seq("plain/t16", gen::T16, if q { 4 } else { 5 }, b"", b"", false, false));
     v.push(seq("plain/b11-string", gen::B11, if q { 4 } else { 6 }, b"\"", b"\"", false, false));
